@@ -257,6 +257,42 @@ def rule_registry(ctx) -> None:
     chk.exhaustive_rules.add("C05.registry")
 
 
+def rule_pck_probe(ctx) -> None:
+    """C05.pck-size: the part common key from the configuration is used at its own length (128 or 256 bit), never zero-extended."""
+    chk, prog = ctx.chk, ctx.prog
+    IM = "spsdk/sbfile/sb31/images.py"
+    lf = ctx.own(IM, "SecureBinary31", "load_from_config")
+    loops = [n for n in ast.walk(lf.node) if isinstance(n, ast.For) and "PCK_SIZES" in norm(n.iter)]
+    if len(loops) != 1:
+        raise AnalysisError("C05.pck-size: the PCK size probing loop was not found")
+    lp = loops[0]
+    sizes = prog.fold(lp.iter, lf.module, lf.cls)
+    if isinstance(lp.iter, ast.Call) and norm(lp.iter.func) in ("sorted", "reversed"):
+        raise AnalysisError("C05.pck-size: probing order is computed; model not applicable")
+    trs = [s for s in lp.body if isinstance(s, ast.Try)]
+    if not isinstance(sizes, list) or len(trs) != 1 or len(lp.body) != 1:
+        raise AnalysisError(f"C05.pck-size: unexpected loop shape (sizes {sizes})")
+    tr = trs[0]
+    loads = [c for c in A.calls_in(ast.Module(body=tr.body, type_ignores=[]), "load_hex_string")]
+    if len(loads) != 1 or norm(A.arg_of(loads[0], 1, "expected_size")) != f"{norm(lp.target)} // 8":
+        raise AnalysisError("C05.pck-size: load_hex_string(.., size // 8, ..) not found in the probing loop")
+    exits_on_success = any(isinstance(s, (ast.Break, ast.Return)) for s in tr.body) or any(isinstance(s, (ast.Break, ast.Return)) for s in tr.orelse)
+    handler_swallows = all(not A.always_raises(h.body) and not any(isinstance(x, (ast.Break, ast.Return)) for x in h.body) for h in tr.handlers)
+    # model: load_hex_string(value, n) accepts a hex value of at most n bytes (shorter values are zero-extended) and raises otherwise
+    probs = []
+    for key_bits in (128, 256):
+        chosen = None
+        for sz in sizes:
+            if key_bits <= sz:
+                chosen = sz
+                if exits_on_success:
+                    break
+        if chosen != key_bits:
+            probs.append(f"a {key_bits}-bit key is loaded as a {chosen}-bit key (zero-extended)")
+    chk.decide(not probs and handler_swallows, "C05.pck-size", lf.qual, f"probing {sizes} {'stops at the first' if exits_on_success else 'keeps the last'} size that loads: 128- and 256-bit keys are each used at their own length",
+               "; ".join(probs) or "the failure handler leaves the loop", "the smallest size that accepts the value wins", A.loc(IM, lp))
+
+
 def run(ctx) -> None:
     ctx.chk.explain("C05: PackSym on the SB3.1 header and the command layouts; walk of the export call tree proving no accumulating state without reset (idempotent export); "
                     "shape of the hash chain (record layout, link update, processing order, container order and sequencing); length formulas evaluated for both hash sizes; "
@@ -267,6 +303,7 @@ def run(ctx) -> None:
     ctx.rule(rule_formulas)
     ctx.rule(rule_partition)
     ctx.rule(rule_registry)
+    ctx.rule(rule_pck_probe)
     ctx.rule(c09.rule_kdf, "C05")
     ctx.chk.assumptions = ["hash/CMAC/AES values are those of the cryptography package (C09)", "not decided: signature validity, certificate block contents (C03), per-command payload semantics"]
 
